@@ -57,6 +57,11 @@ void setup(void){ lifo_init(); parsec_lifo_nolock_push(&L, B); parsec_lifo_noloc
 void thread0(void){ parsec_list_item_t *x = parsec_lifo_pop(&L); if(x) parsec_lifo_push(&L, x); x = parsec_lifo_pop(&L); r[0] = x; }
 void thread1(void){ parsec_list_item_t *x = parsec_lifo_pop(&L); if(x) parsec_lifo_push(&L, x); r[1] = parsec_lifo_pop(&L); }
 #define NTHREADS 2
+#elif SCEN == 7 /* ABA against try_pop: [A,B]   T0: try_pop      T1: pop; pop; push(first) */
+void setup(void){ lifo_init(); parsec_lifo_nolock_push(&L, B); parsec_lifo_nolock_push(&L, A); }
+void thread0(void){ r[0] = parsec_lifo_try_pop(&L); }
+void thread1(void){ r[1] = parsec_lifo_pop(&L); r[2] = parsec_lifo_pop(&L); if(r[1]) { parsec_lifo_push(&L, r[1]); r[1] = NULL; } }
+#define NTHREADS 2
 #elif SCEN == 6 /* [A,B]  T0: pop    T1: pop; push(it)   (ABA with a non-empty rest: the re-pushed item has a successor) */
 void setup(void){ lifo_init(); parsec_lifo_nolock_push(&L, B); parsec_lifo_nolock_push(&L, A); }
 void thread0(void){ r[0] = parsec_lifo_pop(&L); }
@@ -105,7 +110,8 @@ void check(void)
 #elif SCEN == 4
     VASSERTM(in[0] + held(A) == 1 && in[1] + held(B) == 1 && in[2] + held(C) == 1, "A, B, C exactly once");
     VASSERTM(!(r[0] != NULL && r[0] == r[1]), "two try_pops never return the same item");
-    VASSERTM(r[0] != NULL || r[1] != NULL, "try_pop may fail only under contention: not both (stack never empty, one CAS must win or push interfered once)");
+    /* both try_pops may fail: the single concurrent push changes the head between their read and their CAS */
+    VASSERTM((r[0] != NULL) + (r[1] != NULL) + n == 3, "every item is either popped or still in the stack (3 items in all)");
     if(r[0] == NULL || r[1] == NULL) VWITNESS("a try_pop lost the race");
     if(r[0] == C || r[1] == C) VWITNESS("popped the concurrently pushed item");
 #elif SCEN == 5
@@ -114,6 +120,12 @@ void check(void)
     VASSERTM(n == 0, "stack empty at the end");
     if(r[0] == B) VWITNESS("T0 ends with B");
     if(r[0] == A) VWITNESS("T0 ends with A");
+#elif SCEN == 7
+    VASSERTM(in[0] + held(A) == 1, "A exactly once (stack xor one holder)");
+    VASSERTM(in[1] + held(B) == 1, "B exactly once (stack xor one holder)");
+    VASSERTM(r[2] != A, "T1's second pop cannot return the item T1 still holds");
+    if(r[0] == NULL && n == 1) VWITNESS("try_pop lost the race and gave up");
+    if(r[0] == A && r[2] == B) VWITNESS("try_pop got A after T1 recycled it");
 #elif SCEN == 6
     VASSERTM(in[0] + held(A) == 1, "A exactly once (stack xor one holder)");
     VASSERTM(in[1] + held(B) == 1, "B exactly once (stack xor one holder)");
